@@ -31,6 +31,11 @@ CHECKS = {
         note="Trusted: Lean kernel + [propext, Classical.choice, Quot.sound]; extractor for Gen.Lz4; hand-written Model/Lz4.lean tied by finite differential runs under ASan; LP64 word size; liblz4 as reference. Not proved: functional equality with the block-format spec (lz4_sound/lz4_complete); whole-font shaping equality of compressed vs uncompressed fonts.",
         technique="Lean 4 invariant proof (in-bounds for all inputs) over a faithful word-copy model + differential ASan correspondence + liblz4 reference comparison",
         ref="§6 C14"),
+    "C17": dict(
+        text="Proof (Lean 4 kernel), partial (interval-set sentence only): on the model of Zones (insert with its four outcode cases, separated tests, split_at/left_trim/+=; remove; find_exclusion_under; closest/track_cost/test_position incl. the IEEE behaviour of smx/sm for sm = 0) - zones_inv: after initialise with a non-empty range and ANY sequence of excludes and weighted inserts the interval list is sorted, pairwise disjoint, non-empty and inside its bounds; excluded_never_offered: once (a,b) was excluded, whatever operations follow, closest never finds a position strictly inside it; closest_mem: a found position lies in an interval of the set, for arbitrary (zero, negative) cost coefficients. Tied to the real Zones class by thousands of random operation sequences on integer grids (exact float arithmetic) comparing interval lists, cost coefficients and closest results.",
+        note="Trusted: Lean kernel + [propext, Classical.choice, Quot.sound]; hand-written Model/Zones.lean (end points Int, costs Rat) tied by finite differential runs; float rounding not modelled (inputs chosen exact; inexact divisions compared approximately and counted). NOT covered by any theorem: ShiftCollider/KernCollider geometry - limit containment of the accumulated offset and truth of the 'resolved' verdict (octabox separation); these clauses are not yet checked by this machinery.",
+        technique="Lean 4 invariant proofs over all operation sequences of the interval-set model + differential operation sequences on the real class",
+        ref="§6 C17"),
     "C18": dict(
         text="Proof (Lean 4 kernel): on the model of the feature packing (FeatureRef constructor with its byte/short field widths, applyValToFeature with resize, getFeatureVal) - set succeeds iff v <= max (any 16-bit value when the feature has no settings), a failed set changes nothing, get-after-set returns the value, a set leaves every other feature unchanged (bit-level field lemmas by testBit extensionality); alloc_disjoint/loaded_isolated: every packing the loader accepts gives well-formed pairwise disjoint bit fields (the loader refuses tables needing more than 255 words - fix commit); history_refines: after ANY sequence of set operations every feature reads what a plain map feature->value holds; language lookups zero-pad the tag (padding chain REGENERATED, shared with C20) and unknown languages give the defaults. Byte-level Feat/Sill parsers, defaults, Sill overrides, clone and for_lang are tied to the code by histories of set/get/clone/for_lang/dump on a callback face with synthesised tables (v1/v2 layouts, widths around every power of two, 100-300 features, malformed tables) under ASan, compared with the model and with an abstract map reference.",
         note="Trusted: Lean kernel + [propext, Classical.choice, Quot.sound]; hand-written Model/Feat.lean tied by finite differential runs; mask_over_val/bit_set_count modelled by meaning (needBits), validated for boundary (quick) / all (thorough) 16-bit maxima. Not covered: feature/setting labels from the name table (NameTable.cpp) and their three encodings; Sill parsing has no theorem of its own (correspondence only).",
